@@ -65,4 +65,20 @@ MUTANTS = [
     dict(name="c05_trade_margin_at_liq", props=["C05"], what="after a trade the margin is left at acquisition price (no re-mark)",
          edits=[(B, "        self._last_marking_to_market_price[trade.contract] = ref_price\n        self.marking_to_market(trade.contract)\n",
                  "        self._last_marking_to_market_price[trade.contract] = ref_price\n")]),
+    # ---- C03 -----------------------------------------------------------------------------------
+    dict(name="c03_acq_price_by_holding_sign", props=["C03"], what="target conversion prices by the sign of the current holding",
+         edits=[(A, "            avg_price = broker.exchange[contract].acq_price(weight)\n",
+                 "            held = broker.holdings_quantity.get(contract, 0.0)\n            avg_price = broker.exchange[contract].acq_price(held if held != 0 else weight)\n")]),
+    dict(name="c03_multiplier_dropped", props=["C03", "C01"], what="weight -> contracts ignores the multiplier",
+         edits=[(A, "            nr_contracts[contract] = weight * nlv / avg_price / contract.multiplier\n",
+                 "            nr_contracts[contract] = weight * nlv / avg_price\n")]),
+    dict(name="c03_sub_ignores_absent", props=["C03", "C12", "C11"], what="__sub__ drops contracts absent from the target (no liquidation)",
+         edits=[(A, "            for k, v in other.items():\n                mapping[k] = mapping.get(k, 0) - v\n",
+                 "            for k, v in other.items():\n                if k in mapping:\n                    mapping[k] = mapping[k] - v\n")]),
+    dict(name="c03_mid_price_targets", props=["C03"], what="weights converted at the mid price",
+         edits=[(A, "            avg_price = broker.exchange[contract].acq_price(weight)\n",
+                 "            avg_price = broker.exchange[contract].mid_price\n")]),
+    dict(name="c03_zero_target_kept", props=["C03", "C12"], what="zero entries of the target are kept, so a zero-weight contract is thresholded / not liquidated exactly",
+         edits=[(R, "        if self.absolute:\n            imbalance -= NrContracts(broker.holdings_quantity)\n",
+                 "        if self.absolute:\n            held = {k: v for k, v in broker.holdings_quantity.items() if k in self.allocation}\n            imbalance -= NrContracts(held)\n")]),
 ]
